@@ -146,6 +146,62 @@ def case(task):
     return out
 
 
+LINKS = {'out': '../../abs', 'lnk': '../x', 'dangling': '../created-through-a-link', 'loop': 'loop', 'inside': 'sub', 'inlnk': 'sub/f'}
+
+
+def link_case(task):
+    """innocent names, but the tree holds symbolic links: whatever leaves the working directory through one is refused,
+    links that stay inside are followed"""
+    name, kind, threads, backup = task
+    d = wsweep.wdir()
+    sentinel = os.path.join(d, 'sentinel')
+    shutil.rmtree(sentinel, ignore_errors=True)
+    root = os.path.join(sentinel, 'lvl1', 'ws')
+    os.makedirs(os.path.join(sentinel, 'abs', 'sub'))
+    os.makedirs(os.path.join(sentinel, 'lvl1'), exist_ok=True)
+    for p in ('x', 'lvl1/x', 'abs/x', 'abs/sub/x'):
+        with open(os.path.join(sentinel, p), 'wb') as f:
+            f.write(DECOY)
+    files = {'f': (INTREE, 0o644), 'sub/f': (DECOY, 0o644), 'sub/x': (DECOY, 0o644)}
+    files.update({k: (v.encode(), 'link') for k, v in LINKS.items()})
+    n = name.encode()
+    mod_body = b'@@ -1,3 +1,3 @@\n decoy1\n-decoy2\n+CHANGED\n decoy3\n'
+    text = {'create': b'--- /dev/null\n+++ b/' + n + b'\n@@ -0,0 +1,2 @@\n+created1\n+created2\n',
+            'modify': b'--- a/' + n + b'\n+++ b/' + n + b'\n' + mod_body,
+            'delete': b'--- a/' + n + b'\n+++ /dev/null\n@@ -1,3 +0,0 @@\n-decoy1\n-decoy2\n-decoy3\n',
+            'failing': b'--- a/' + n + b'\n+++ b/' + n + b'\n@@ -1,3 +1,3 @@\n nope1\n-nope2\n+X\n nope3\n',
+            'rename-to': b'diff --git a/sub/x b/' + n + b'\nrename from sub/x\nrename to ' + n + b'\n'}[kind]
+    ws.make_ws(root, files, {'p0.patch': b'--- a/f\n+++ b/f\n@@ -1,3 +1,3 @@\n f0\n-f1\n+F1\n f2\n', 'p1.patch': text}, ['p0.patch', 'p1.patch'])
+    first = name.split('/')[0]
+    stays = first in ('inside', 'inlnk') or first not in LINKS
+
+    def outside_snapshot():
+        s_ = ws.snapshot(sentinel, meta=True, skip=())
+        return {p: v for p, v in s_.items() if not (p + '/').startswith('lvl1/ws/') and p not in ('lvl1/', './')}
+    before, inside_before = outside_snapshot(), ws.snapshot(root)
+    o = ws.run_rq(root, ['-a', '-q', '--backup', backup], threads=threads)
+    after, inside_after = outside_snapshot(), ws.snapshot(root)
+    out = {'evals': 1, 'violations': [], 'outcomes': {('link-stays-inside' if stays else 'link-leads-out') + ':exit-' + o.cls: 1}, 'nontrivial': 1}
+    tags = wsweep.cls({'symbolic-link-in-the-tree', 'via:' + first, kind, 'threads>1' if threads > 1 else 'threads=1'})
+    w = lambda extra: dict({'kind': 'cli-sentinel-links', 'links': LINKS, 'patch': common.b2s(text), 'series': ['p0.patch', 'p1.patch'], 'threads': threads, 'name': name, 'fpkind': kind, 'backup': backup}, **extra)
+    if o.cls not in ('0', '1'):
+        out['violations'].append((tags, o.cls, w({'observed': o.cls, 'stderr': common.b2s(o.err[-300:])})))
+        return out
+    changed = sorted(p for p in set(before) | set(after) if before.get(p) != after.get(p))
+    if changed:
+        out['violations'].append((tags, 'file-outside-the-tree-changed', w({'expected': 'sentinel directory unchanged', 'observed': changed[:6]})))
+    elif not stays:
+        if o.cls != '1':
+            out['violations'].append((tags, 'name-leading-out-through-a-link-not-refused', w({'expected': 'exit 1', 'observed': o.cls})))
+        elif inside_before != inside_after and kind != 'failing':
+            ch = sorted(p for p in set(inside_before) | set(inside_after) if inside_before.get(p) != inside_after.get(p))
+            out['violations'].append((tags, 'refused-but-the-tree-changed', w({'expected': 'nothing touched', 'observed': ch[:6]})))
+    elif kind in ('modify', 'create', 'delete') and o.cls != '0':
+        # a link that stays inside is followed as before
+        out['violations'].append((tags, 'link-that-stays-inside-refused', w({'expected': 'exit 0', 'observed': o.cls, 'stderr': common.b2s(o.err[-300:])})))
+    return out
+
+
 SPELLINGS = [
     ('dotdot', '../x'), ('dotdot-twice', '../../x'), ('dir-dotdot-dotdot', 'a/../../x'), ('dot-dotdot', './../x'), ('double-slash', 'a//../../x'),
     ('deep', 'a/b/../../../x'), ('absolute', '@ABS@/x'), ('to-itself', 'x/..'), ('sibling-via-parent', '../lvl1/x'), ('harmless', 'a/../x'),
@@ -173,6 +229,20 @@ def run(tier, seed):
             r['sample'] = {'spelling': t[1], 'strip': t[2], 'kind': t[3], 'position': t[4], 'quoted': t[5], 'threads': t[6], 'outcome': sorted(r['outcomes'])}
         acc.add(r)
     acc.finish('sweep')
+    ltasks = []
+    for name, kinds in (('out/created', ('create', 'rename-to')), ('out/x', ('modify', 'delete', 'failing')), ('out/sub/x', ('delete', 'modify')), ('out/new/deep/f', ('create',)), ('lnk', ('modify', 'delete', 'failing')),
+                        ('dangling', ('create', 'rename-to')), ('loop', ('create', 'modify')), ('inside/f', ('modify', 'delete', 'failing')), ('inside/n', ('create',)), ('inlnk', ('modify',))):
+        for kind in kinds:
+            for threads in (1, 2):
+                for backup in ('never', 'always'):
+                    ltasks.append((name, kind, threads, backup))
+    acc2 = wsweep.Acc(res)
+    for r in wsweep.pmap(link_case, ltasks):
+        acc2.add(r)
+    acc2.finish('symbolic_links_in_the_tree')
+    res.coverage['symbolic_links_in_the_tree']['rule'] = ('the tree holds links %r (a directory outside, a file outside, a dangling one pointing outside, a loop, a directory and a file inside); patches with innocent names that '
+                                                          'go through them (create, modify, delete, failing hunk => reject, rename target) x threads {1,2} x backups on/off, behind a patch that applies. Oracle: outside of the '
+                                                          'workspace nothing changes (bytes, modes, inodes, mtimes); what leads out is refused with exit 1 and nothing touched; links that stay inside work as before') % (LINKS,)
     cov = res.coverage
     cov['rule'] = ('name spellings %s (absolute path, ".." components in several shapes; quoted C-string form with an octal escape as well) x header position (---, +++, both, diff --git, rename target/source) '
                    'x file-patch kind (create, modify, delete, rename to/from, mode change, failing hunk => reject file) x -p0..-p3 (the name carries as many extra leading components) x threads {1,2}; the '
